@@ -10,11 +10,11 @@ SPEC = dict(
     rule='abstract configurations generated from the seed and RENDERED TO YAML TEXT, taken through viper -> mapstructure hooks -> '
          'configuration.Validate: (a) documented forms only (all sensor/fan/curve kinds, every spelling of controlAlgorithm, both step '
          'spellings, nested function curves in shuffled definition order); (b) one of 52 planted deviations per case (every validator rule, '
-         'the four D15 shapes, permission failures), 8x each, then two at once; (c) curve graphs with 2..8 nodes: random DAGs, an embedded '
+         'the four D15 shapes, permission failures), 8x each, then two at once; every subset of the three backend blocks (none, each single, each pair, all three) for a sensor, a curve and a fan entry; every way three sensors are used (by a linear curve, only by a pid curve, only by a pid curve nested in function curves, not at all); (c) curve graphs with 2..8 nodes: random DAGs, an embedded '
          'cycle of every length 1..8, dangling references; (d) EVERY digraph incl. self-loops on 1..3 nodes (thorough: ..4). Ids are strings that are pairwise distinct but fall into groups differing only in letter case, surrounding blanks or unusual '
          'trailing characters ("c0", "C0", " c0 ", "c0.\u00e4/#"), member lists repeat ids (also consecutively). Every accepted configuration is handed to a '
          'persistent worker process that loads the same file through the real loader, runs the real Validate on its own CurrentConfig and then - from that '
-         'same in-memory configuration - instantiates with the real constructors / initializeCurves / initializeFanControllers, evaluates every curve under '
+         'same in-memory configuration - instantiates with the REAL start-up glue internal.InitializeObjects (hwmon.GetChips through the gosensors stand-in on a fixed fake hwmon tree, initializeSensors, initializeCurves, initializeFans) and initializeFanControllers, evaluates every curve under '
          '8 sensor environments (incl. NaN/Inf averages) and runs calculateTargetPwm for every fan; panics are recovered, a stack overflow (endless recursion) '
          'or an 8 s stall kills the worker and is attributed to the target it had started (stack limit 4 MB; generation stops after 8 such cases, each of '
          'which is a failing input). Every 40th case and the corpus (about 50 documents per run) also go through the real command line entry '
@@ -25,7 +25,7 @@ SPEC = dict(
     assumptions=['perm_ok: the result of util.CheckFilePermissionsForExecution(config file) is an oracle argument of validate (exercised with modes 0644/0666)',
                  'Tarjan SCC (github.com/looplab/tarjan) is not modelled: the model decides the same criterion by peeling, proved exact (C11_cycle_check_exact, C11_scc_criterion); agreement observed on all digraphs <= 3 (thorough 4) nodes',
                  'sensor environments are values (moving averages, PID outputs); sensor READ failures are C09\'s subject',
-                 'hwmon discovery (C17) is replaced in the driver by pointing hwmon entries at temp files'],
+                 'hwmon discovery runs for real but against the gosensors stand-in on a fixed fake tree (coretemp temp1..9, nct6798 fan/pwm1..9); discovery itself is C17\'s subject'],
     trusted_base=['Print Assumptions lists only kernel primitives (PrimFloat.*, PrimInt63.*) - no axiom; floats occur only as opaque data of the evaluator and in the `== 0` tests of the PID constants',
                   'YAML/viper/mapstructure decoding is not modelled; the driver checks that every rendered document decodes to exactly the abstract configuration handed to the model (o_decode)',
                   'hand-written model of validation.go, NewSensor/NewSpeedCurve/NewFan, initializeFanControllers, Evaluate of the three curve kinds (crash sites explicit)'],
